@@ -1,6 +1,7 @@
 package memnet
 
 import (
+	"io/fs"
 	"errors"
 	"io"
 	"sync"
@@ -18,6 +19,9 @@ type Pipe struct {
 	buf     []byte
 	wclosed bool
 	rclosed bool
+	// wEndClosed / rEndClosed: the owner of that end (WEnd / REnd) has called Close on it
+	wEndClosed bool
+	rEndClosed bool
 	Writes  [][]byte // each Write call as issued
 	Chunks  [][]byte // each piece as it entered the buffer (the byte stream a reader sees)
 	WriteBy []int    // thread id of each Write
@@ -175,7 +179,17 @@ type WEnd struct{ P *Pipe }
 func (w WEnd) Write(b []byte) (int, error) { return w.P.Write(b) }
 
 //go:norace
-func (w WEnd) Close() error { return w.P.CloseWrite() }
+func (w WEnd) Close() error {
+	// like an *os.File: closing an end that this side has already closed fails
+	w.P.mu.Lock()
+	again := w.P.wEndClosed
+	w.P.wEndClosed = true
+	w.P.mu.Unlock()
+	if again {
+		return &fs.PathError{Op: "close", Path: "|1", Err: fs.ErrClosed}
+	}
+	return w.P.CloseWrite()
+}
 
 type REnd struct{ P *Pipe }
 
@@ -183,4 +197,13 @@ type REnd struct{ P *Pipe }
 func (r REnd) Read(b []byte) (int, error) { return r.P.Read(b) }
 
 //go:norace
-func (r REnd) Close() error { return r.P.CloseRead() }
+func (r REnd) Close() error {
+	r.P.mu.Lock()
+	again := r.P.rEndClosed
+	r.P.rEndClosed = true
+	r.P.mu.Unlock()
+	if again {
+		return &fs.PathError{Op: "close", Path: "|0", Err: fs.ErrClosed}
+	}
+	return r.P.CloseRead()
+}
